@@ -747,7 +747,12 @@ def find_ratio(ff):
             if isinstance(n, ast.BinOp) and isinstance(n.op, ast.Mult):
                 for a, b in ((n.left, n.right), (n.right, n.left)):
                     if isinstance(a, LoopVar) and is_items_of_contents(a.iter) and a.path == (1,):
-                        return b, a.loop
+                        loop = a.loop
+                        if not isinstance(loop, ast.stmt):
+                            # the amounts were computed by a comprehension (`moved = {s: a * ratio for ..}`): its statement
+                            from ..model import enclosing_stmt
+                            loop = enclosing_stmt(loop) or loop
+                        return b, loop
     return None
 
 
